@@ -114,12 +114,28 @@ def replay(res, pid, path):
     m = re.search(r'build/s_conc (\w+) (\d+) (\d+) (\d+)', open(path).read())
     if not m:
         res.violation("replay", "not a schedule replay file: " + path); return
-    rc, out = run_one(exe, m.group(1), int(m.group(2)), int(m.group(3)), int(m.group(4)))
+    txt = open(path).read()
+    line = [l for l in txt.splitlines() if "build/s_conc" in l][0]
+    env = dict(re.findall(r'\b(VERIF_[A-Z_]+)=(\S+)', line.split("build/s_conc")[0]))      # the environment variant of the schedule
+    rc, out = run_one(exe, m.group(1), int(m.group(2)), int(m.group(3)), int(m.group(4)), env or None)
     v, end = parse(rc, out)
+    mine = set().union(*KINDS[pid].values()) if pid in KINDS else None
     for kind, text in v:
-        res.violation("impl:" + kind, "replay: " + text, witness=open(path).read())
+        if mine is None or kind in mine:
+            res.violation("impl:" + kind, "replay: " + text, witness=txt)
     res.cov["evaluations"] += 1; res.cov["distinct_nontrivial"] += 2
     res.add_samples([m.group(0)])
+
+
+def run_corpus(res, pid):
+    """corpus/<pid>/*.sched: stored deterministic schedules (witnesses of repaired defects), replayed first"""
+    cdir = os.path.join(vlib.VERIF, "corpus", pid)
+    n = 0
+    for name in sorted(os.listdir(cdir)) if os.path.isdir(cdir) else []:
+        if name.endswith(".sched"):
+            replay(res, pid, os.path.join(cdir, name)); n += 1
+    res.cov.setdefault("input_distribution", {})["corpus_schedules"] = n
+    return n
 
 
 def run_lockstep(res, pid, seed, tier):
